@@ -169,8 +169,9 @@ class Verdicts:
 @st.composite
 def lib_case(draw):
     exp = draw(st.sampled_from([-1, 0, 0, 0, 0, 1, 2, 5]))
-    mb = draw(st.sampled_from([0, 0, 1, 1, 2, 2, 3, 3, 4, 5, 6, 7, 8, 9, 10, 12, 16, 17, 24, 33, 63, 64]))
-    value = draw(st.one_of(st.integers(0, 3), st.integers(0, 255), st.integers(0, 1 << 16), st.sampled_from([(1 << 63) - 2, 1 << 62, 10 ** 18]), gens.u64_edge.map(lambda x: x >> 1)))
+    mb = draw(st.sampled_from([0, 0, 0, 1, 1, 2, 2, 3, 3, 4, 4, 5, 6, 7, 8, 9, 10, 12, 16, 24, 33, 64, 64, 64]))
+    value = draw(st.one_of(st.integers(0, 3), st.integers(0, 3), st.integers(0, 255), st.integers(0, 255), st.integers(0, 1 << 16), st.integers(0, 1 << 16),
+                           st.sampled_from([(1 << 63) - 2, 1 << 62, 10 ** 18, 1 << 32]), gens.u64_edge.map(lambda x: x >> 1)))
     mink = draw(st.sampled_from(["zero", "zero", "zero", "eq", "below", "one"]))
     value = min(value, (1 << 63) - 2)
     mn = {"zero": 0, "eq": value, "one": min(1, value)}.get(mink)
@@ -286,7 +287,9 @@ TINY = _tiny_points()
 @st.composite
 def ref_case(draw, adv=None):
     a = adv or draw(st.sampled_from(ADV))
-    mant = draw(st.one_of(st.sampled_from(MANT_SMALL), st.sampled_from(MANT_SMALL), st.sampled_from([63, 64]), st.integers(1, 64)))
+    mant = draw(st.one_of(st.sampled_from(MANT_SMALL), st.sampled_from(MANT_SMALL), st.sampled_from(MANT_SMALL), st.sampled_from([63, 64]), st.integers(1, 64)))
+    if a == "f3":
+        mant = draw(st.sampled_from([1, 1, 3, 3, 5, 5, 7, 9, 11, 17, 33, 63]))
     if a in ("honest", "overflow") and draw(st.integers(0, 5)) == 0:
         mant = 64
     return {"adv": a, "mant": mant, "exp": draw(st.sampled_from([0, 0, 0, 1, 2, 3, 9, 18])), "minsel": draw(st.sampled_from(["none", "none", "zero", "small", "max"])),
@@ -674,13 +677,13 @@ def _only(adv):
 
 
 TESTS = [
-    Test("lib_mutations", lib_case, run_lib, quick=110, thorough=5000,
+    Test("lib_mutations", lib_case, run_lib, quick=64, thorough=3000,
          must_cover=["flips:every_bit", "flips:sampled256", "mant=64", "mant=exact", "mant=1", "trunc_ext", "extra_mut", "other_commit_gen", "verdict:accept", "verdict:reject"]),
     Test("ref_prover", ref_case, run_ref, quick=700, thorough=30000,
          must_cover=["small_s", "s_plus_n_twin", "honest:accepted", "exact:accepted", "exp_hi:rejected", "reserved:rejected", "mant_hi:rejected", "overflow:just_below", "overflow:at",
                      "overflow:above", "overflow:accepted", "overflow:rejected", "exp_overflow:rejected", "spare_bits:rejected", "trailing:rejected", "digit_x_ge_p", "digit_off_curve",
                      "digit_x_plus_p:accepted", "digit_x_plus_p_twin", "scalar_zero:rejected", "last_inf:rejected", "wrong_witness:rejected", "ref_sender_rewound", "mant=33-64"]),
-    Test("rewind_digit_outside_ring", _only("f3"), run_ref, quick=90, thorough=3000, must_cover=["f3:accepted"]),
+    Test("rewind_digit_outside_ring", _only("f3"), run_ref, quick=80, thorough=3000, must_cover=["f3:accepted"]),
     Test("random_strings", rand_case, run_rand, quick=500, thorough=20000, must_cover=["format_ok", "format_reject"]),
     Test("info_strings", info_case, run_info, quick=4000, thorough=100000, must_cover=["info_ok", "info_reject", "reserved_bit", "exp>18", "mantissa>64", "range_overflow"]),
 ]
